@@ -112,6 +112,9 @@ func genHs(seed uint64, tier string) KScenario {
 	if r.P(0.2) {
 		sc.Net.Burst = r.Pick(2, 4, 16)
 	}
+	if !sc.VN && r.P(0.25) {
+		sc.Cfg.Version = 2 // QUIC v2 from the start (other Initial salt, Retry key, packet type bits)
+	}
 	if r.P(0.15) {
 		// damage to the long header of one of the first client datagrams (version, connection ID lengths and bytes, token
 		// length): the server may create its connection from a header it cannot authenticate
